@@ -2,7 +2,7 @@
 From Coq Require Import String.
 From Coq Require Import List.
 From VLS Require Import Base.Rust Gen.KvvGen.
-From VLS Require Import Model.Kvv.
+From VLS Require Import Model.Kvv Proofs.KvvProofs.
 Import ListNotations.
 Local Open Scope N_scope.
 
@@ -70,3 +70,109 @@ Qed.
 Theorem gen_delete_is_model prof s k :
   gen_MemoryKVVStore_delete prof (mk_MemoryKVVStore s) k = of_mres (m_put prof s k []).
 Proof. unfold gen_MemoryKVVStore_delete. apply gen_put_is_model. Qed.
+
+(** * put_batch: the staged map merged into the store is the model's running store *)
+
+Lemma sorted_ext {V} (s : list (key * V)) : forall s', ksorted s -> ksorted s' ->
+  (forall k, lookup k s = lookup k s') -> s = s'.
+Proof.
+  induction s as [|[k v] r IH]; intros [|[k' v'] r'] S S' H.
+  - reflexivity.
+  - specialize (H k'). cbn [lookup] in H. rewrite kcmp_refl in H. discriminate H.
+  - specialize (H k). cbn [lookup] in H. rewrite kcmp_refl in H. discriminate H.
+  - cbn [ksorted] in S, S'. destruct S as [A S], S' as [A' S'].
+    destruct (kcmp k k') eqn:E.
+    + apply kcmp_eq_iff in E. subst k'.
+      pose proof (H k) as Hk. cbn [lookup] in Hk. rewrite kcmp_refl in Hk. injection Hk as ->.
+      f_equal. apply IH; [exact S | exact S' |]. intros x.
+      destruct (kcmp x k) eqn:Ex.
+      * apply kcmp_eq_iff in Ex. subst x. rewrite !lookup_above by assumption. reflexivity.
+      * specialize (H x). cbn [lookup] in H. rewrite Ex in H. exact H.
+      * specialize (H x). cbn [lookup] in H. rewrite Ex in H. exact H.
+    + exfalso. specialize (H k). cbn [lookup] in H. rewrite kcmp_refl, E in H.
+      rewrite (lookup_above k r') in H by (eapply keys_above_trans; eassumption). discriminate H.
+    + exfalso. apply kcmp_gt_lt in E. specialize (H k'). cbn [lookup] in H. rewrite kcmp_refl, E in H.
+      rewrite (lookup_above k' r) in H by (eapply keys_above_trans; eassumption). discriminate H.
+Qed.
+
+Definition merge (data staged : store) : store :=
+  fold_left (fun d (kv : kvv) => upsert (fst kv) (snd kv) d) staged data.
+
+Lemma merge_sorted staged : forall data, ksorted data -> ksorted (merge data staged).
+Proof.
+  unfold merge. induction staged as [|[k e] r IH]; intros data S; cbn [fold_left fst snd]; [exact S|].
+  apply IH. apply upsert_sorted. exact S.
+Qed.
+
+Lemma lookup_merge staged : forall data k, ksorted staged ->
+  lookup k (merge data staged) = match lookup k staged with Some e => Some e | None => lookup k data end.
+Proof.
+  unfold merge. induction staged as [|[k0 e0] r IH]; intros data k S; cbn [fold_left fst snd lookup]; [reflexivity|].
+  cbn [ksorted] in S. destruct S as [A S]. rewrite IH by exact S. rewrite lookup_upsert.
+  destruct (kcmp k k0) eqn:E.
+  - apply kcmp_eq_iff in E. subst k0. rewrite (lookup_above k r) by exact A. reflexivity.
+  - reflexivity.
+  - reflexivity.
+Qed.
+
+Lemma merge_upsert data staged k e : ksorted data -> ksorted staged ->
+  merge data (upsert k e staged) = upsert k e (merge data staged).
+Proof.
+  intros Sd Ss. apply sorted_ext.
+  - apply merge_sorted. exact Sd.
+  - apply upsert_sorted, merge_sorted. exact Sd.
+  - intros x. rewrite lookup_merge by (apply upsert_sorted; exact Ss).
+    rewrite !lookup_upsert, lookup_merge by exact Ss.
+    destruct (kcmp x k); reflexivity.
+Qed.
+
+Lemma fold_insert_merge staged : forall data : store,
+  fold_left (fun d_ (kv_ : list N * (N * list N)) => bmap_insert d_ (fst kv_) (snd kv_)) staged data = merge data staged.
+Proof.
+  unfold merge. induction staged as [|a r IH]; intros data; cbn [fold_left]; [reflexivity|].
+  rewrite bmap_insert_upsert. apply IH.
+Qed.
+
+Theorem gen_put_batch_is_model prof s l :
+  ksorted s ->
+  gen_MemoryKVVStore_put_batch prof (mk_MemoryKVVStore s) l = of_mres (m_batch s l).
+Proof.
+  intros Ss. unfold gen_MemoryKVVStore_put_batch. cbv beta zeta. cbn [MemoryKVVStore_data].
+  match goal with |- bindR (fold_r ?B _ _) _ = _ => set (body := B) end.
+  assert (Hloop : forall l staged, ksorted staged ->
+            match batch_go (merge s staged) l, fold_r body l staged with
+            | Some s', Val (OkR st') => merge s st' = s'
+            | None, Val (ErrR tg) => tg = "VersionMismatch"%string
+            | _, _ => False
+            end).
+  { clear l. induction l as [|[k [ver val]] r IH]; intros staged St; cbn [batch_go fold_r].
+    - reflexivity.
+    - match goal with |- context [body staged ?x] => set (step := body staged x) end.
+      assert (Hs : step = match lookup k (merge s staged) with
+                          | Some (v0, val0) =>
+                              if ver <? v0 then Val (ErrR "VersionMismatch"%string)
+                              else if ver =? v0
+                                   then (if val_eqb val0 val then Val (OkR staged) else Val (ErrR "VersionMismatch"%string))
+                                   else Val (OkR (upsert k (ver, val) staged))
+                          | None => Val (OkR (upsert k (ver, val) staged))
+                          end).
+      { subst step. unfold body. cbv beta iota zeta.
+        rewrite !bmap_get_lookup, !bmap_insert_upsert, lookup_merge by exact St.
+        unfold opt_or_else. unfold vv, Kvv.value, key, store, kvv in *.
+        destruct (lookup k staged) as [[a b]|]; [|destruct (lookup k s) as [[a b]|]]; try reflexivity;
+          rewrite bytes_eqb_val_eqb; unfold Kvv.value; destruct (val_eqb b val); reflexivity. }
+      rewrite Hs. clear Hs. clearbody step. clear step.
+      unfold judge. unfold vv, Kvv.value, key, store, kvv in *.
+      match goal with |- context [match ?L with Some _ => _ | None => Write end] => destruct L as [[v0 val0]|] end.
+      + destruct (ver <? v0); [cbn [bindR]; reflexivity|].
+        destruct (ver =? v0).
+        * destruct (val_eqb val0 val); cbn [bindR]; [apply IH; exact St | reflexivity].
+        * cbn [bindR]. rewrite <- merge_upsert by assumption. apply IH. apply upsert_sorted. exact St.
+      + cbn [bindR]. rewrite <- merge_upsert by assumption. apply IH. apply upsert_sorted. exact St. }
+  match goal with |- bindR ?F _ = _ => set (fr := F) end.
+  specialize (Hloop l [] I). change (merge s []) with s in Hloop. change (fold_r body l []) with fr in Hloop.
+  clearbody fr. unfold m_batch, of_mres.
+  destruct (batch_go s l) as [s'|], fr as [[st'|tg]|]; cbv beta iota in Hloop; try contradiction; cbn [bindR fst snd].
+  - rewrite fold_insert_merge, Hloop. reflexivity.
+  - rewrite Hloop. reflexivity.
+Qed.
